@@ -280,22 +280,24 @@ impl C03 {
     pub fn run_program(&self, tier: Tier, case: u64, k: &Kernel, acc: &mut Acc) {
         let text = k.program.text();
         let (bound, full_cap, bound_cap) = tier.pick((1, 64, 128), (2, 1024, 2048));
-        let mut panicked = false;
+        let mut panicked: Option<String> = None;
         let mut run = |prefix: &[u32]| -> Option<(imp::Run, Vec<riscv_analysis::verif::Decision>)> {
             match imp::analyze(imp::MemReader::single(&text), "base.s", prefix) {
                 Ok(r) => {
                     let d = r.report.decisions.clone();
                     Some((r, d))
                 }
-                Err(_) => {
-                    panicked = true;
+                Err(p) => {
+                    panicked = Some(p.0);
                     None
                 }
             }
         };
         let ex = sched::explore(&mut run, bound, full_cap, bound_cap);
-        if panicked {
+        if let Some(msg) = panicked {
+            // crashes are C06's subject; recorded here as an outcome only
             acc.count("analysis_panicked", 1);
+            acc.outcome(&format!("panic:{}", msg.chars().take(60).collect::<String>()), case);
             return;
         }
         if let Some(d) = &ex.replay_divergence {
@@ -412,6 +414,10 @@ impl Property for C03 {
             acc.sample(json!({"case": case, "family": k.family, "source": k.program.text()}));
         }
         self.run_program(tier, case, &k, acc);
+    }
+    fn show(&self, tier: Tier, case: u64) -> String {
+        let k = { let sp = self.space(tier); sp.get(sp.control_part().0 + case) };
+        format!("[{}]\n{}", k.family, k.program.text())
     }
     fn replay(&self, w: &Value, acc: &mut Acc) {
         if let Some(case) = w["case"].as_u64() {
